@@ -381,10 +381,11 @@ def model_opaq_print(cx, views, ri):
     if not reqs:
         return
     rm = cx.run_model(reqs)
-    nattr = 0
+    nattr = nout = 0
     for k, (d, px, view) in enumerate(meta):
         r = rm.get(str(k), ["err", "NoReply"])
         if r[:2] == ["err", "Unsupported"]:
+            nout += 1
             cx.count(None, False, "rtx:opaq-model:out-of-fragment (data nodes or JSON-format opaque nodes in the view)")
             continue
         v = unhex(view)
@@ -393,7 +394,8 @@ def model_opaq_print(cx, views, ri):
         if r[0] != "ok" or unhex(r[1]) != px:
             cx.disagree("rtx-opaq-model", reqs[k][:6000], ["ok", hexs(px)[:3000]], [r[0], (r[1] if len(r) > 1 else "")[:3000]])
     cx.rule("opaq-model: %d views of opaque forests (%d attribute lines) printed by the Lean model of xml_print_ns/xml_print_attr/"
-            "xml_print_opaq = libyang's shrunk XML, byte for byte" % (len(meta), nattr))
+            "xml_print_opaq = libyang's shrunk XML, byte for byte; %d more views are outside the model's fragment (data nodes, JSON-format "
+            "opaque nodes) and only counted" % (len(meta) - nout, nattr, nout))
 
 
 def run_opaq(cx):
